@@ -53,6 +53,27 @@ def ctx_on(schema, c):
     return ctx_on(schema, k["parent"]) if k["parent"] is not None else False
 
 
+def disc_root(schema, c):
+    """the ancestor-or-self of c that carries a Config discriminator, if any"""
+    while c is not None:
+        if schema["classes"][c].get("disc"):
+            return c
+        c = schema["classes"][c]["parent"]
+    return None
+
+
+def descendants(schema, c):
+    out = []
+    for d in range(len(schema["classes"])):
+        p = schema["classes"][d]["parent"]
+        while p is not None:
+            if p == c:
+                out.append(d)
+                break
+            p = schema["classes"][p]["parent"]
+    return out
+
+
 def name_ty(schema, n):
     return schema["names"][str(n)]["ty"]
 
@@ -103,8 +124,15 @@ PRELUDE = '''\
 import copy
 from dataclasses import dataclass, field
 from typing import Any, Dict, List, Optional, Tuple, Union
-from mashumaro.config import BaseConfig, ADD_SERIALIZATION_CONTEXT
+from mashumaro.config import BaseConfig, ADD_SERIALIZATION_CONTEXT, ADD_DIALECT_SUPPORT
+from mashumaro.dialect import Dialect
+from mashumaro.types import Discriminator
 {mixin_import}
+
+
+class D(Dialect):     # an empty dialect: passing it must not change which hooks run
+    pass
+
 
 LOG = []          # (kind, class name, payload, context)
 KEEP = []         # keeps every constructed object alive (stable identities)
@@ -187,10 +215,20 @@ def class_source(schema) -> str:
             body.append("    __pre_deserialize__ = classmethod(_pre_de)")
         if h.get("postde"):
             body.append("    __post_deserialize__ = classmethod(_post_de)")
-        if k["own_ctx"] is not None:
-            opts = "[ADD_SERIALIZATION_CONTEXT]" if k["own_ctx"] else "[]"
+        cfg = []
+        if schema.get("dialect"):
+            # every class opts in to ADD_DIALECT_SUPPORT (uniformly, so the flag lists of union members agree on it)
+            cfg.append("code_generation_options = [ADD_DIALECT_SUPPORT"
+                       + (", ADD_SERIALIZATION_CONTEXT]" if ctx_on(schema, c) else "]"))
+        elif k["own_ctx"] is not None:
+            cfg.append("code_generation_options = " + ("[ADD_SERIALIZATION_CONTEXT]" if k["own_ctx"] else "[]"))
+        if k.get("disc"):
+            cfg.append('discriminator = Discriminator(field="kind", include_subtypes=True)')
+        if disc_root(schema, c) is not None and not k.get("disc"):
+            body.append(f'    kind = "K{c}"')
+        if cfg:
             body.append("    class Config(BaseConfig):")
-            body.append(f"        code_generation_options = {opts}")
+            body += ["        " + x for x in cfg]
         out.append("\n".join(body) if body else "    pass")
         out.append("")
     return "\n".join(out) + "\n"
@@ -328,6 +366,8 @@ def wire_of(schema, v, drop_default_none=False):
         if x[0] == "none" and drop_default_none and name_default(schema, n):
             continue
         d[f"f{n}"] = wire_of(schema, x, drop_default_none)
+    if disc_root(schema, c) is not None:
+        d["kind"] = f"K{c}"
     return d
 
 
@@ -435,7 +475,12 @@ def run_ser(mod, schema, root_ty, value, entry):
     try:
         if entry["via"] == "mixin":
             meth = getattr(obj, entry["method"])
-            raw = meth(context=token) if entry.get("ctx") else meth()
+            kw = {}
+            if entry.get("ctx"):
+                kw["context"] = token
+            if entry.get("dialect"):
+                kw["dialect"] = mod.D
+            raw = meth(**kw)
         else:
             m, cn = CODEC_ENC[entry["codec"]]
             enc = getattr(importlib.import_module(m), cn)(ann_of(mod, root_ty))
@@ -480,7 +525,7 @@ def run_de(mod, schema, root_ty, wire, entry):
     try:
         if entry["via"] == "mixin":
             cls = getattr(mod, f"K{root_ty[1]}")
-            obj = getattr(cls, entry["method"])(data)
+            obj = getattr(cls, entry["method"])(data, **({"dialect": mod.D} if entry.get("dialect") else {}))
         else:
             m, cn = CODEC_DEC[entry["codec"]]
             dec = getattr(importlib.import_module(m), cn)(ann_of(mod, root_ty))
